@@ -413,7 +413,8 @@ def projectTok (p : Proj) (tok : String) : String :=
 def runBatcherProj (p : Proj) (line : String) : String :=
   match Sexp.parse line with
   | some (.list [.atom "b", cap, .list (.atom "sp" :: sp), .list (.atom "win" :: ws), .list (.atom "ops" :: ops)]) =>
-    match cap.nat?.filter (· ≥ 1), nats? sp, windows? ws, ops.mapM op? with
+    -- (capacity 0 is legal: C06 is stated for all capacities; C09's bound for capacities ≥ 1)
+    match cap.nat?, nats? sp, windows? ws, ops.mapM op? with
     | some cap, some sp, some win, some ops =>
       let cfg := Cfg.real cap
       let ((b, used, cc), toks) := runOps cfg sp win (binit, [], {}) ops []
